@@ -306,7 +306,7 @@ class DescendingTree:
         return numpy.sort(hits)[::-1]
 
 
-def body_points(ctx, conv, nreq, policy, api, dimname, boundary=False, bounds_coords=False, relabel=False, int_coords=False, point_taken=False, after_other=False):
+def body_points(ctx, conv, nreq, policy, api, dimname, boundary=False, bounds_coords=False, relabel=False, int_coords=False, point_taken=False, after_other=False, after_failure=False):
     ds, cv, info = make(ctx, conv, bounds_coords, int_coords, point_taken=point_taken)
     polygons = cv.polygons
     N = len(polygons)
@@ -356,6 +356,16 @@ def body_points(ctx, conv, nreq, policy, api, dimname, boundary=False, bounds_co
             pass
         del other
         gc.collect()
+    if after_failure and not ctx.symbolic:
+        # the same list object was offered before with a point far outside the model (refused), then corrected in place
+        from emsarray.operations import point_extraction as _pe
+        offered = [shapely.Point(-1234.0, -1234.0)] + list(points[1:])
+        try:
+            _pe.extract_points(ds, offered, missing_points='error')
+        except _pe.NonIntersectingPoints:
+            pass
+        offered[0] = points[0]
+        points = offered
     hits = [k for k, o in enumerate(outcomes) if o >= 0]
     misses = [k for k, o in enumerate(outcomes) if o < 0]
     hit_cells = [tuple(int(v) for v in numpy.unravel_index(outcomes[k], shape)) for k in hits]
@@ -483,6 +493,9 @@ def cases(tier):
                            dict(conv=conv, nreq=2, policy=policy, api='extract_dataframe', dimname=None, relabel=True), max_paths=50000, split=16)
                 yield Case(f'points:{conv}:extract_dataframe:{policy}:2:relabelled-table:range', body_points,
                            dict(conv=conv, nreq=2, policy=policy, api='extract_dataframe', dimname=None, relabel='range'), max_paths=50000, split=16)
+            for policy in ('drop', 'error'):
+                yield Case(f'points:{conv}:select_points:{policy}:2:after-a-refused-request', body_points,
+                           dict(conv=conv, nreq=2, policy=policy, api='select_points', dimname=None, after_failure=True), max_paths=50000, split=16)
             yield Case(f'points:{conv}:select_points:drop:2:after-another-model', body_points,
                        dict(conv=conv, nreq=2, policy='drop', api='select_points', dimname=None, after_other=True), max_paths=50000, split=16)
             yield Case(f'points:{conv}:select_points:drop:2:point-dimension-taken', body_points,
